@@ -98,8 +98,22 @@ impl BlteBuilder {
         self
     }
 
+    /// A chunk size of 0 (only reachable through `with_chunk_size_unchecked`) cannot
+    /// split a non-empty payload: the chunking loops would never advance.
+    fn check_can_chunk(&self, data: &[u8]) -> BlteResult<()> {
+        if self.chunk_size == 0 && !data.is_empty() {
+            return Err(BlteError::InvalidChunkSize {
+                size: 0,
+                min: MIN_CHUNK_SIZE,
+                max: MAX_CHUNK_SIZE,
+            });
+        }
+        Ok(())
+    }
+
     /// Add data that will be automatically chunked
     pub fn add_data(mut self, data: &[u8]) -> BlteResult<Self> {
+        self.check_can_chunk(data)?;
         if data.len() <= self.chunk_size {
             // Single chunk - the cipher block index is the chunk's position in the file
             let chunk = if let Some(_encryption) = &self.encryption {
@@ -150,6 +164,7 @@ impl BlteBuilder {
         data: &[u8],
         encryption_per_chunk: Option<(EncryptionSpec, [u8; 16])>,
     ) -> BlteResult<Self> {
+        self.check_can_chunk(data)?;
         if data.len() <= self.chunk_size {
             // Single chunk - use current chunk count as block index for encryption
             let chunk_index = self.chunks.len();
